@@ -8,7 +8,7 @@
     regular-expression oracle (whole-string match of an XSD pattern), universally quantified.
     All statements range over every restriction text, every chain length, every value. *)
 From Coq Require Import ZArith List Bool Lia Strings.Byte.
-From YV Require Import Base.Verdict Restrict.RangeParse Restrict.Model Restrict.Spec Restrict.Proofs Check.C05Check.
+From YV Require Import Base.Verdict Restrict.RangeParse Restrict.Model Restrict.Spec Restrict.Proofs Restrict.Print Restrict.PrintProofs Check.C05Check.
 Import ListNotations.
 Open Scope Z_scope.
 
@@ -125,6 +125,38 @@ Theorem C05_kf4_refuted :
              in_effective_type rx_w (BNum I8) false (map den_level pc) (VOne (SNum 127)).
 Proof. exact kf4_refuted. Qed.
 Print Assumptions C05_kf4_refuted.
+
+(** The model of newRange inverts the printer of the RFC 7950 range grammar: every non-empty list
+    of alternatives whose bounds are min, max or integers OF ANY SIZE, printed as text, is read back
+    as exactly that syntax. *)
+Theorem C05_parser_inverts_printer : forall es, es <> [] -> Forall int_pentry es ->
+  exists r, parse_range (print_range es) = Some r /\ map den_entry r = map alt_of es.
+Proof. exact parse_print_range. Qed.
+Print Assumptions C05_parser_inverts_printer.
+
+(** End to end, on restriction SYNTAX: for every integer type, every typedef chain (any depth) of
+    range restrictions written in the RFC grammar with integer bounds of any size, and every value
+    or leaf-list of values: the write is accepted exactly when the value is in the effective type -
+    inside some alternative of every level.  Soundness needs no hypothesis on where min / max
+    stand; the equivalence needs them where the code reads them (finding 4). *)
+Theorem C05_integer_end_to_end_sound : forall rx k il lv v,
+  Forall lvl_ok lv -> wf_value v ->
+  accept rx (BNum k) il (chain_text lv) v = Accepted ->
+  in_effective_type rx (BNum k) il (chain_syntax lv) v.
+Proof. exact integer_end_to_end_sound. Qed.
+Print Assumptions C05_integer_end_to_end_sound.
+
+Theorem C05_integer_end_to_end : forall rx k il lv v,
+  Forall lvl_ok lv -> Forall lvl_placed lv -> wf_value v ->
+  (accept rx (BNum k) il (chain_text lv) v = Accepted <->
+   in_effective_type rx (BNum k) il (chain_syntax lv) v).
+Proof. exact integer_end_to_end. Qed.
+Print Assumptions C05_integer_end_to_end.
+
+Example C05_printer_example :
+  print_range [PRange BdMin (BdNum (-10) 0); PSingle (BdNum 18446744073709551616 0)] =
+  [x6d;x69;x6e;x2e;x2e;x2d;x31;x30;x7c;x31;x38;x34;x34;x36;x37;x34;x34;x30;x37;x33;x37;x30;x39;x35;x35;x31;x36;x31;x36].
+Proof. vm_compute. reflexivity. Qed.
 
 (** Selection.Set with an already typed value: never crashes, leaves the store alone unless
     accepted, and for every numeric, decimal and string type decides exactly as the converting
